@@ -11,7 +11,7 @@
      split_ok count split items     the contract of a signal's split (proved for the three real splits)
    The theorems are generic in the signal and hold for logs_run / traces_run / metrics_run through
    split_n_spec_logs / _traces / _metrics. *)
-From Verif Require Import Common.Base C17.Model C17.Bounded C17.Proofs1 C17.Proofs2 C17.ProofsB C17.Proofs3 Generated.C17Batch C17.Translated.
+From Verif Require Import Common.Base C17.Model C17.Bounded C17.Proofs1 C17.Proofs2 C17.ProofsB C17.Proofs3 Generated.C17Batch C17.Translated C17.Harness C17.Clauses C17.ProofsC.
 From Coq Require Import Permutation.
 
 (* ---- split_n_spec: the three count-based splits ------------------------------------------------------
@@ -104,6 +104,17 @@ Theorem bp_metadata_isolation : forall R X count split (items : list R -> list X
   exists md p, In (md, p) (accepted ls (snd r)) /\ In x (items p) /\ md_values c md = s_md s.
 Proof. exact (@isolation_l). Qed.
 
+
+(* "never placed in the same batch", literally: when all accepted items are pairwise different, EVERY accepted call
+   containing an item of an emitted batch arrived with exactly the tuple the batch was exported with *)
+Theorem bp_metadata_isolation_unique : forall R X count split (items : list R -> list X), split_ok count split items ->
+  forall c t0 ls s o x md p,
+  let r := bp_run count split c t0 ls in
+  NoDup (map snd (accepted_tagged items c ls (snd r))) ->
+  In s (fst r) -> In o (s_out s) -> In x (items (snd o)) ->
+  In (md, p) (accepted ls (snd r)) -> In x (items p) -> md_values c md = s_md s.
+Proof. exact (@isolation_unique_l). Qed.
+
 (* ---- cardinality limit ----------------------------------------------------------------------------------- *)
 Theorem bp_cardinality_bound : forall R X count split (items : list R -> list X), split_ok count split items ->
   forall c t0 ls, mks c <> [] -> c_limit c <> 0 ->
@@ -192,6 +203,26 @@ Theorem t1_itemCount_hasTimer_cardinality :
   /\ (forall R c t0, mks c = [] -> Z.of_nat (length (bp_init (R := R) c t0)) = singleShard_cardinality).
 Proof. exact (conj itemCount_is_counter (conj hasTimer_is_timer_created (@single_shard_cardinality))). Qed.
 
+
+(* ---- the decidable clause checker run over every observed case (Clauses.v) is sound and complete --------------
+   run_viol / split_viol inspect only the OBSERVATION (script + what the implementation did): 0 iff, for a validated
+   configuration, the Consume results follow the refusal rule, no exported request exceeds send_batch_max_size and the
+   exported items with their export-context tuples are a permutation of the items accepted before Shutdown with the
+   tuples they arrived with (conservation + identity + isolation). *)
+Theorem clause_checker_run_sound : forall R X count (items : list R -> list X) xeqb,
+  (forall x y, xeqb x y = true <-> x = y) ->
+  forall c ops obs, run_viol count items xeqb c ops obs = 0 <-> RunClause count items c ops obs.
+Proof. exact (@run_viol_sound). Qed.
+
+Theorem clause_checker_split_sound : forall R X count (items : list R -> list X) xeqb,
+  (forall x y, xeqb x y = true <-> x = y) ->
+  forall size src d k, split_viol count items xeqb size src d k = 0 <-> SplitClause count items size src d k.
+Proof. exact (@split_viol_sound). Qed.
+
+Theorem clause_checker_item_equalities :
+  (forall x y, item3_eqb x y = true <-> x = y) /\ (forall x y, item4_eqb x y = true <-> x = y).
+Proof. exact (conj item3_eqb_spec item4_eqb_spec). Qed.
+
 Print Assumptions split_n_spec_logs.
 Print Assumptions split_n_spec_traces.
 Print Assumptions split_n_spec_metrics.
@@ -215,3 +246,7 @@ Print Assumptions bb_progress.
 Print Assumptions t1_metricDPC_is_metric_count.
 Print Assumptions t1_metric_types_distinct.
 Print Assumptions t1_itemCount_hasTimer_cardinality.
+Print Assumptions clause_checker_run_sound.
+Print Assumptions clause_checker_split_sound.
+Print Assumptions clause_checker_item_equalities.
+Print Assumptions bp_metadata_isolation_unique.
